@@ -211,18 +211,22 @@ ADDENDA3 = {'C01': 'Seventh batch: the gate hands out the table entry of exactly
     'C19': 'Seventh batch: json.loads of the codec has no hooks and JSON is parsed in one place; to_bytes encodes with (charset, errors).',
     'C20': 'Seventh batch: shared classes are closed over objects kept in fields of shared objects or at module level.'}
 ADDENDA4 = {
+    'C05': 'Eighth round: the algorithm gates are decided by partial evaluation on probe registries / names (substrings, case and whitespace variants, non-str names) under the two-sidedness condition, by the truth table otherwise.',
+    'C10': 'Eighth round: JWTClaimsRegistry(...).validate(claims) is folded on a grid of about 3000 single-claim probes (time boundaries, floats, non-numbers, every combination of request options, scalar / list audiences) and compared with the statement\'s verdict; parameter defaults of the registry constructor are constants (the clock is read per registry); exception flow and the validate_<claim> dispatch set stay as rules; the shape rules R10.1 - R10.6 decide when the fold is inconclusive.',
+    'C01': 'Eighth round: borrowed clauses (header tables, key selection sites, routing) look at JWS and shared code only.',
+    'C02': 'Eighth round: the routing clause looks at JWE and shared code only.',
     'C03': 'Eighth round: named JSON members are filled from (and guarded by) the value of the same name (member crossing, JWS functions); borrowed generic clauses look at JWS and shared code only.',
     'C04': 'Eighth round: a member the JSON reader subscripts on every path is written on every path (R04.16); crossed-names clause of the routing rule; member crossing (R04.17); no refusal on the emptiness of the ciphertext / encrypted key in the readers (R04.18); borrowed generic clauses look at JWE and shared code only.',
     'C08': 'Eighth round: the JWE readers read an empty ciphertext / encrypted key of a foreign token (R08.15 = R04.18); the borrowed model-state clause looks at JWE models only.',
-    'C11': 'Eighth round: validate_dict_key_registry is decided by partial evaluation on probe registries / JWKs (required -> raise, present -> validated whatever the value) when every branch test was decided both ways, by shape otherwise; member crossing in shared code (R11.20).',
-    'C12': 'Eighth round: CryptographyBinding.as_bytes is decided per path (call views): on every path the (native key, flag) pair handed to dump_pem_key agrees with the request - three returns or one selection followed by one call.',
+    'C11': 'Eighth round: the PEM / DER dispatch of dump_pem_key and validate_dict_key_registry are decided by partial evaluation on probe registries / JWKs (required -> raise, present -> validated whatever the value) when every branch test was decided both ways, by shape otherwise; member crossing in shared code (R11.20).',
+    'C12': 'Eighth round: BaseKey.as_dict and dump_pem_key are decided by partial evaluation on probe keys / a probe grid (two-sidedness condition), by shape otherwise; CryptographyBinding.as_bytes is decided per path (call views): on every path the (native key, flag) pair handed to dump_pem_key agrees with the request - three returns or one selection followed by one call.',
     'C13': 'Eighth round: the thumbprint field selection and the thumbprint computation are decided by partial evaluation with intercepted callees on probe JWKs (two-sidedness condition, DESIGN 11.11), by shape otherwise.',
     'C14': 'Eighth round: get_by_kid and pick_random_key are decided by partial evaluation on probe key sets (two-sidedness condition), by path rule / shape otherwise; the object handed to guess_key has a headers() method according to the type checker.',
     'C15': 'Eighth round: the registry constructors, the registries handed to the shared checks by check_header, and the value validators are decided by partial evaluation on probes (two-sidedness condition), by shape otherwise.',
     'C16': 'Eighth round: the list-of-str validator that guards the crit loop is recognised by partial evaluation on the probe battery.',
     'C20': 'Eighth round: local aliases are followed flow-sensitively (`r = self.table; if c: r = r.copy(); r.update(x)` writes the copy only).',
 }
-ENGINE_NOTE = ' Engine: calls to functions that are not in the reference function list (new helpers, extracted or introduced) are inlined exactly before any rule runs (jv/inline.py); sentinel threading, constant sinking and type-dead None-test pruning (canon C24-C26) normalise what inlining leaves behind.'
+ENGINE_NOTE = ' Engine: calls to functions that are not in the reference function list (new helpers, extracted or introduced) are inlined exactly before any rule runs (jv/inline.py); new private NamedTuples are dissolved (jv/sroa.py); tables, search loops and comprehensions over new module-level tables are unrolled; sentinel threading, selector sinking, walrus hoisting and type-dead None-test pruning (canon C24-C28) normalise what is left.'
 
 ADDENDA2 = {'C01': 'Later additions: per-instance containers on the message classes; the signature handed to the primitive is the received octet string itself; the header tables as the crit defence; PSS / PKCS1 primitive call table and consuming-side key selection (no kid written into a received header) as clauses. Generic routing rule: between functions that share a parameter name the property speaks about, the value is handed on as given (frozen exception table) and the parameter is not re-bound except by to_bytes / to_str of itself.',
     'C02': 'Later additions: 1PU / ES shared-secret terms, key-wrap primitive shapes, whole-key dir, and zip honoured from the protected position only, as clauses. Generic routing rule: between functions that share a parameter name the property speaks about, the value is handed on as given (frozen exception table) and the parameter is not re-bound except by to_bytes / to_str of itself.',
